@@ -853,6 +853,16 @@ class ktensor:
             assert False, "other must be a ktensor"
         # Makes typing happy https://github.com/python/mypy/issues/4805
         other_tensor = other
+        if (
+            other_tensor.ndims < self.ndims
+            or other_tensor.ncomponents > self.ncomponents
+            or any(
+                a.shape[0] != b.shape[0]
+                for a, b in zip(self.factor_matrices, other_tensor.factor_matrices)
+            )
+        ):
+            # Rejected before self is normalised
+            assert False, "other must have the shape of self and no more components"
 
         self.normalize()
         other_tensor = other_tensor.copy().normalize()
